@@ -766,7 +766,8 @@ NextChangeTask:
 NextLaneTask:
 	for _, t := range laneTasks {
 		for _, tlane := range t.Lanes() {
-			if hasLive[tlane] && !hasDead[tlane] {
+			// lanes aborted earlier in the same operation are not healthy
+			if hasLive[tlane] && !hasDead[tlane] && !abortedLanes[tlane] {
 				continue NextLaneTask
 			}
 		}
